@@ -440,7 +440,7 @@ func (ig *ingest) roundRules(e *Effect) {
 					switch ts := typeShort(p.Type()); {
 					case ts == "interfaces.Block":
 						blk = ev.Arg(i)
-					case ts == "leanhelix.blockWithProof":
+					case ts == syncMsgType:
 						blk = Field(ev.Arg(i), "block")
 					case isBoolType(p.Type()):
 						first = ev.Arg(i)
@@ -481,7 +481,7 @@ func (ig *ingest) roundRules(e *Effect) {
 // U-sync: the handleUpdateState accept branch must exist (the call is made when the test passes)
 func runSyncShape(a *Analyzer, r *Results) {
 	// U9: the main loop reaches no blocking SPI method
-	fn := a.P.Func("(*leanhelix.MainLoop).run")
+	fn := a.P.Func(idMainRun)
 	seen := map[*ssa.Function]bool{}
 	var bad []string
 	var visit func(f *ssa.Function, trail string)
@@ -550,7 +550,7 @@ func runLoops(a *Analyzer, r *Results) {
 	k := a.Anchors()
 	vc := k.VC
 	// main loop
-	effs, und := a.effectsOf("(*leanhelix.MainLoop).run", nil, true)
+	effs, und := a.effectsOf(idMainRun, nil, true)
 	r.Undecided = append(r.Undecided, und...)
 	nEl, nSync := 0, 0
 	isForward := func(e *Effect, elemType string) bool {
@@ -642,7 +642,7 @@ func runLoops(a *Analyzer, r *Results) {
 				ev.Verdict("K9.exact", props("C15", "C05", "C19"), "an election trigger that reaches the main loop is dropped only when the context registry says its (height, view+1) is superseded: no other test of the trigger's position (remembered maxima, parity, ...) can swallow it, so the view it announces is always cancelled and the worker always hears about it", "",
 					len(extra) == 0, "the path to the forward also tests the trigger's position: "+strings.Join(extra, "; "))
 			}
-		case "leanhelix.blockWithProof":
+		case syncMsgType:
 			nSync++
 			ev := a.NewEval(e, r)
 			msg := ev.Arg(0)
@@ -666,7 +666,7 @@ func runLoops(a *Analyzer, r *Results) {
 	if nEl == 0 || nSync == 0 {
 		r.Undecided = append(r.Undecided, fmtf("main loop: election forwards=%d sync forwards=%d (each expected >= 1)", nEl, nSync))
 	}
-	runSyncMark(a, r, func(call *ssa.Call) bool { return isForward(&Effect{Kind: "call", Instr: call}, "leanhelix.blockWithProof") })
+	runSyncMark(a, r, func(call *ssa.Call) bool { return isForward(&Effect{Kind: "call", Instr: call}, syncMsgType) })
 	// worker: election arm
 	effs, und = a.effectsOf("(*leanhelix.WorkerLoop).Run", nil, false)
 	r.Undecided = append(r.Undecided, und...)
@@ -744,7 +744,7 @@ func callReaches(a *Analyzer, in ssa.Instruction, recvType, method string) bool 
 
 func runShutdown(a *Analyzer, r *Results) {
 	// Z1/Z2: loops
-	for _, id := range []string{"(*leanhelix.WorkerLoop).Run", "(*leanhelix.MainLoop).run"} {
+	for _, id := range []string{"(*leanhelix.WorkerLoop).Run", idMainRun} {
 		fn := a.P.Func(id)
 		nSel := 0
 		for _, b := range fn.Blocks {
@@ -847,7 +847,7 @@ func runShutdown(a *Analyzer, r *Results) {
 	}
 	// Z3: the main loop's deferred interrupt is installed before anything else
 	{
-		fn := a.P.Func("(*leanhelix.MainLoop).run")
+		fn := a.P.Func(idMainRun)
 		ok := false
 		for _, in := range fn.Blocks[0].Instrs {
 			if d, isD := in.(*ssa.Defer); isD {
